@@ -30,6 +30,7 @@ SPEC = {'id': 'C04',
           ('Snowflake.Tie.Broker', 'Snowflake.Tie.Broker.skel_heap_Swap_tie'),
           ('Snowflake.Tie.Broker', 'Snowflake.Tie.Broker.skel_heap_Push_tie'),
           ('Snowflake.Tie.Broker', 'Snowflake.Tie.Broker.skel_heap_Pop_tie'),
+          ('Snowflake.Tie.Broker', 'Snowflake.Tie.Broker.registration_sites'),
           ('Snowflake.Tie.Broker', 'Snowflake.Tie.Broker.timeouts_positive'),
           ('Snowflake.Tie.Broker', 'Snowflake.Tie.Broker.nat_names_distinct')],
  'harness': [{'pkg': 'broker', 'test': 'TestVerifC04$', 'timeout': '12m'}],
